@@ -41,7 +41,7 @@ functions = [
                (r'\n  \}\n', r'\n', 1, 1)]},   # closing brace of the range-for (first brace at loop indentation)
     {'name': 'MetadataDecoder_DecodeName', 'file': MD, 'anchor': r'bool MetadataDecoder::DecodeName\(std::string \*name\)\s*\{',
      'sig': 'bool MetadataDecoder_DecodeName(struct MetadataDecoder *self, struct cstr *name)',
-     'subst': [(r'buffer_->Decode\(&name_len\)', 'DecoderBuffer_Decode_u8(self->buffer_, &name_len)', 1), (r'name->resize\(name_len\)', 'cstr_resize(name, name_len)', 1),
+     'subst': [(r'buffer_->Decode\(&name_len\)', 'DecoderBuffer_Decode_u8(self->buffer_, &name_len)', 1), (r'name->resize\(name_len\)', 'cstr_resize(name, name_len)', 1), (r'name->size\(\)', 'name->size', 0), (r'name->empty\(\)', '(name->size == 0)', 0),
                (r'buffer_->Decode\(&name->at\(0\), name_len\)', 'DecoderBuffer_DecodeBytes(self->buffer_, &name->data[0], name_len)', 1)]},
     {'name': 'MetadataDecoder_DecodeEntry', 'file': MD, 'anchor': r'bool MetadataDecoder::DecodeEntry\(Metadata \*metadata\)\s*\{',
      'sig': 'bool MetadataDecoder_DecodeEntry(struct MetadataDecoder *self, struct MetadataGhost *metadata)',
